@@ -14,6 +14,8 @@ import ElysModel.Gen.Arith.cancelSpotGuards
 import ElysModel.Gen.Arith.updateSpotGuards
 import ElysModel.Gen.Arith.cancelPerpGuards
 import ElysModel.Gen.Arith.updatePerpGuards
+import ElysModel.Gen.Arith.cancelSpotBatchBody
+import ElysModel.Gen.Arith.cancelPerpBatchBody
 import ElysModel.Gen.Arith.Table
 import ElysModel.Ledger.Orders
 namespace Elys.Orders.C20Src
@@ -81,5 +83,18 @@ theorem gen_free_owner_guards :
       "#2.OwnerAddress != #0.GetPendingPerpetualOrder(sdk.UnwrapSDKContext(#1), #2.OrderId).OwnerAddress"] ∧
     (Gen.Arith.freeOf "updatePerpGuards").take 2 = ["#0.GetPendingPerpetualOrder(sdk.UnwrapSDKContext(#1), #2.OrderId)#1",
       "#2.OwnerAddress != #0.GetPendingPerpetualOrder(sdk.UnwrapSDKContext(#1), #2.OrderId).OwnerAddress"] := by decide
+
+/-- the batch forms (`MsgCancelSpotOrders`, `MsgCancelPerpetualOrders`): the body of their loop, for an arbitrary listed id, is ONE call of the
+single-order cancel, and an inner refusal refuses the whole message (the transaction is rolled back: nothing of the batch stays). -/
+theorem gen_batch_cancel_refused_together (err : Bool) :
+    (Gen.Arith.cancelSpotBatchBody err = .ok true → err = false) ∧ (Gen.Arith.cancelPerpBatchBody err = .ok true → err = false) := by
+  unfold Gen.Arith.cancelSpotBatchBody Gen.Arith.cancelPerpBatchBody
+  cases err <;> simp
+
+/-- … and that inner call is made in the name of the batch message's OWN signer field (`msg.Creator` / `msg.OwnerAddress`), for the id the loop
+is at — so `gen_owner_only` applies to every order of a batch (seeded change C20-8 put the stored owner of the order there). -/
+theorem gen_free_batch_cancel :
+    Gen.Arith.freeOf "cancelSpotBatchBody" = ["#0.CancelSpotOrder(#1, &types.MsgCancelSpotOrder{OwnerAddress: #2.Creator, OrderId: spotOrderId})#err"] ∧
+    Gen.Arith.freeOf "cancelPerpBatchBody" = ["#0.CancelPerpetualOrder(#1, &types.MsgCancelPerpetualOrder{OwnerAddress: #2.OwnerAddress, OrderId: orderId})#err"] := by decide
 
 end Elys.Orders.C20Src
